@@ -59,6 +59,22 @@ def run(seed: int, perm: int, n: int) -> list[str]:
     from .core import call, sm, X
     from smoothmath import Point
     res = []
+    # everything the library logs is part of the outcome too: the *same* text must come out under every hash seed and
+    # every creation order (no particular wording is demanded)
+    import logging
+    logged: list[str] = []
+
+    class _H(logging.Handler):
+        def emit(self, record):
+            try:
+                logged.append(f"{record.levelname}:{record.getMessage()}")
+            except Exception as exc:  # a message that cannot be formatted is an outcome as well
+                logged.append(f"{record.levelname}:<unformattable {type(exc).__name__}>")
+    logging.getLogger().addHandler(_H())
+
+    def flush_log():
+        res.append("log:" + json.dumps(logged))
+        logged.clear()
     for c in battery(seed, n):
         names = list(c["vars"])
         perms = list(itertools.permutations(names))[: 6]
@@ -93,6 +109,24 @@ def run(seed: int, perm: int, n: int) -> list[str]:
         # from a point written in one fixed order: only the hash seed and the creation order of variables vary
         pfix = Point(**dict((k_, wire.raw_num(v)) for k_, v in c["p"]))
         res.append(fmt(call(lambda: (repr(pfix), str(pfix), repr(sm.LocatedDifferential(mk(), pfix, _private={"numeric_partials": {}}))))))
+        flush_log()
+    # simplifications that run out of the step budget, over several variable names: the expression handed back and
+    # whatever is logged about it
+    import hashlib
+    rng = random.Random(seed + 29)
+    stock = ["x", "y", "alpha", "b2", "\u00b5", "zeta", "_u", "k9", "w_1"]
+    for terms in (260, 330, 400)[: 3 if n >= 60 else 2]:
+        ns = rng.sample(stock, rng.randint(3, 5))
+        order = list(itertools.permutations(ns))[: 6]
+        _keep = [X.Variable(nm) for nm in order[perm % len(order)]]
+        mkbig = lambda: X.Add(*(X.Multiply(*[X.Variable(nm) for nm in ns]) for _ in range(terms)))  # noqa: E731
+        qs = [lambda: sm.Partial(mkbig(), wire.fresh_str(ns[0])).as_expression(), lambda: mkbig()._normalize()]
+        if terms < 300:      # the early Differential of the larger ones takes seconds
+            qs.append(lambda: sm.Differential(mkbig(), compute_early=True).component(ns[1]).as_expression())
+        for q in qs:
+            r = fmt(call(q, timeout=120))
+            res.append(f"{len(r)}:{hashlib.sha256(r.encode()).hexdigest()[:24]}" if len(r) > 400 else r)
+        flush_log()
     # printed forms of points: names keyword syntax can and cannot spell, mixed, several of each (written in one fixed order)
     rng = random.Random(seed + 17)
     stock = ["x", "y", "alpha", "b2", "1x", "2y", "3z", "class", "lambda", "None", "\u00b5", "\uff58", "\u212b", "zeta", "_u", "k9"]
